@@ -157,8 +157,8 @@ Lemma example_final_stuck : forall l, progress_label l = true -> step example_fi
 Proof.
   intros l Hp. destruct l as [c|c k| | | | |]; try discriminate; try reflexivity.
   destruct c as [|[|c]];
-    [destruct k; simpl in Hp; try discriminate; reflexivity
-    |destruct k; simpl in Hp; try discriminate; reflexivity|].
+    [destruct k; simpl in Hp; try discriminate; repeat match goal with b : bool |- _ => destruct b end; reflexivity
+    |destruct k; simpl in Hp; try discriminate; repeat match goal with b : bool |- _ => destruct b end; reflexivity|].
   unfold step. simpl. destruct c; reflexivity.
 Qed.
 
